@@ -104,6 +104,10 @@ pub enum OpKind {
     ClockJump { ms: i64 },
     /// clean close + reopen (sequential sessions only); damage applied to index files in between
     Restart { lazy: bool, damage: Vec<AtRest> },
+    /// clean close, then for each truncation length of the chosen blob's index file (at most
+    /// `max_cuts` lengths, evenly spread plus structural boundaries): reopen, compare every query
+    /// with the model, close again
+    RestartSweep { lazy: bool, blob: usize, max_cuts: u32 },
     /// poll the operation `k` times, then drop its future (cancellation)
     Cancelled { k: u32, op: Box<OpKind> },
 }
